@@ -587,8 +587,8 @@ func (fr *FnRun) loopEnter(st *State, li *loopInfo, head, prev *ssa.BasicBlock) 
 	ex := fr.ex
 	spec := li.spec
 	if head.Parent() != fr.fn {
-		if c := ex.DB.Contracts[FuncKey(head.Parent())]; c != nil && c.Loops != nil {
-			spec = c.Loops[li.ordinal]
+		if c := ex.DB.Contracts[FuncKey(head.Parent())]; c != nil {
+			spec = ex.loopSpecFor(c, li.ordinal)
 		}
 	}
 	if spec == nil && head.Parent() == fr.fn {
@@ -697,8 +697,8 @@ func (fr *FnRun) loopBack(st *State, li *loopInfo, head, prev *ssa.BasicBlock) {
 	ex := fr.ex
 	spec := li.spec
 	if head.Parent() != fr.fn {
-		if c := ex.DB.Contracts[FuncKey(head.Parent())]; c != nil && c.Loops != nil {
-			spec = c.Loops[li.ordinal]
+		if c := ex.DB.Contracts[FuncKey(head.Parent())]; c != nil {
+			spec = ex.loopSpecFor(c, li.ordinal)
 		}
 	}
 	var phis []*ssa.Phi
